@@ -25,6 +25,7 @@ import (
 const libPrefix = "github.com/ali-assar/NATS-Leader-Election/leader."
 
 type Sim struct {
+	leanApply atomic.Int64 // application counter of lean plans (see link.exec)
 	mu    sync.Mutex
 	plan  *Plan
 	store *refkv.Store
